@@ -39,7 +39,7 @@ Theorem C17_pointer_unscale_exact : forall W n x,
 Proof. exact pointer_in_block_Q. Qed.
 
 (* ---------------------------------------------------------------- geometry, IEEE doubles *)
-(* bounded: all widths up to NS = 192, all factors, all x, both directions: the double expression of
+(* bounded: all widths up to NS = 240, all factors, all x, both directions: the double expression of
    ScaleX/ScaleY (multiply, then divide - /repo commit c7c2b1b) is defined and exact *)
 Theorem C17_F_agrees_Q_on : forall W n,
   1 <= W <= NS -> 1 <= n <= W ->
@@ -47,6 +47,15 @@ Theorem C17_F_agrees_Q_on : forall W n,
   (forall x, 0 <= x < W -> scaleF W w' x = Some (scaleQ W w' x)) /\
   (forall x, 0 <= x < w' -> scaleF w' W x = Some (scaleQ w' W x)).
 Proof. exact scaleF_is_Q. Qed.
+
+(* all 16-bit sizes, over the standard model of binary64 (hypotheses of the Section, see ScaleProofs):
+   a = x*to < 2^32, b = from < 2^16, q = n/d the correctly rounded quotient: (int) q = floor(a/b) *)
+Theorem C17_scaleX_exact_standard_model : forall a b n d : Z,
+  0 <= a < 2 ^ 32 -> 1 <= b < 2 ^ 16 -> 0 < d ->
+  (forall k, 0 <= k -> k * b <= a -> k * d <= n) ->
+  n * b * 2 ^ 53 <= a * d * (2 ^ 53 + 1) ->
+  n / d = a / b.
+Proof. exact trunc_rounded_quotient. Qed.
 
 (* C17_pointer_unscale over the doubles (same bound): the mapped pointer position lies in the source
    block of the client pixel.  (F17: refuted for the formula before c7c2b1b, see
@@ -61,7 +70,7 @@ Theorem C17_pointer_old_formula_refuted :
                   ~ (x * scaleQ (W / n) W 1 <= v).
 Proof. exact pointer_old_formula_refuted. Qed.
 
-(* bounded: all widths up to NC = 56, all factors, all rectangles: the corrected rectangle computed in
+(* bounded: all widths up to NC = 60, all factors, all rectangles: the corrected rectangle computed in
    doubles is non-empty, inside the target and covers the exact image *)
 Theorem C17_correction_inside_F_on : forall W n,
   1 <= W <= NC -> 1 <= n <= W ->
@@ -76,7 +85,7 @@ Proof. exact corr1F_inside. Qed.
 
 (* ---------------------------------------------------------------- pixels *)
 (* rfbScaledScreenUpdateRect for ANY geometry: every pixel of the destination rectangle is the
-   per-channel floor average of its areaX x areaY source block (top-left pixel for colour maps), the
+   per-channel floor average of its areaX x areaY source block (the copied pixel for colour maps), the
    rest of the scaled screen is unchanged, and (true colour) every source pixel read exists *)
 Theorem C17_filter_average : forall tc fmt g src dst dst',
   0 <= gw1 g -> 0 <= gh1 g ->
@@ -88,12 +97,38 @@ Theorem C17_filter_average : forall tc fmt g src dst dst',
     | Some p =>
       Some (if in_box (gx1 g) (gy1 g) (gw1 g) (gh1 g) X Y
             then if tc then avg_px fmt src g (X - gx1 g) (Y - gy1 g)
-                 else px_or0 src (X * gax g) (Y * gay g)
+                 else px_or0 src (idx_or0 (gcxs g) (X - gx1 g)) (idx_or0 (gcys g) (Y - gy1 g))
             else p)
     end) /\
-  (tc = true -> forall i j w u, 0 <= i < gw1 g -> 0 <= j < gh1 g -> 0 <= w < gax g -> 0 <= u < gay g ->
-     fb_get src (gsx0 g + i * gax g + w) (gsy0 g + j * gay g + u) <> None).
+  (tc = true -> forall i j, 0 <= i < gw1 g -> 0 <= j < gh1 g ->
+     exists sx sy, zidx (gsxs g) i = Some sx /\ zidx (gsys g) j = Some sy /\
+       forall w u, 0 <= w < gax g -> 0 <= u < gay g -> fb_get src (sx + w) (sy + u) <> None).
 Proof. exact update_rect_spec. Qed.
+
+(* C17_converges (for the proposed repair notes/fix_C17_2.diff: the block of destination pixel X starts
+   at ScaleX(X) whatever rectangle is refreshed): if the scaled screen is the box filter of the
+   framebuffer, the framebuffer is modified inside a rectangle, and the refresh uses a geometry that is
+   inside the scaled screen and covers the exact image of that rectangle (C17_correction_inside /
+   C17_correction_covers), then the scaled screen is again the box filter of the framebuffer -
+   for every history of modifications, every size, every factor (dividing or not) *)
+Theorem C17_converges : forall fmt g src src' dst dst' W H w' h' x y w h,
+  1 <= w' -> 0 <= W -> 1 <= h' -> 0 <= H ->
+  geom_ok g W H w' h' x y w h ->
+  Conv fmt src W H w' h' dst ->
+  (forall s t, ~ (x <= s < x + w /\ y <= t < y + h) -> fb_get src' s t = fb_get src s t) ->
+  update_rect true fmt g src' dst = Some dst' ->
+  Conv fmt src' W H w' h' dst'.
+Proof. exact converges_step. Qed.
+
+(* F17b - the block grid of the code as it is (block of offset i at ScaleX(x1) + i*areaX): the same
+   framebuffer gives two different scaled images (3x11 screen, factor 3, row 9 modified) *)
+Theorem C17_old_grid_history_dependent :
+  exists fmt src src' gfull gpart A B0 B,
+    (forall s t, ~ (0 <= s < 3 /\ 9 <= t < 10) -> fb_get src' s t = fb_get src s t) /\
+    update_rect true fmt gfull src' (blank_fb 1 3) = Some A /\
+    update_rect true fmt gfull src (blank_fb 1 3) = Some B0 /\
+    update_rect true fmt gpart src' B0 = Some B /\ A <> B.
+Proof. exact old_grid_history_dependent. Qed.
 
 (* ---------------------------------------------------------------- shared scaled views *)
 (* RefInv: for every size, the reference counts of the screens of that size add up to the number of
@@ -146,7 +181,7 @@ Proof. exact split_rect_count_defined. Qed.
 Theorem C17_zero_dim_old_refuted :
   exists W H n w h st st',
     1 <= n <= 255 /\ scaled_size W H n = Some (w, h) /\ w = 0 /\ 1 <= h /\
-    scaling_setup false true (mkfmt 4 255 255 255 0 8 16) (mkgeom 0 0 0 0 0 0 0 0) (client_new st) 0 w h = Some st' /\
+    scaling_setup false true (mkfmt 4 255 255 255 0 8 16) (mkgeom 0 0 0 0 0 0 [] [] [] []) (client_new st) 0 w h = Some st' /\
     (exists cl, nth_error (clients st') 0 = Some cl /\ ckw cl = 0 /\ ckh cl = h) /\
     split_rect_count zlib_max_rect_size w h = None /\ split_rect_count ultra_max_rect_size w h = None.
 Proof. exact zero_dim_refuted. Qed.
